@@ -186,3 +186,23 @@ def return_via_temp(text):
 
 
 TRANSFORMS.update({'else-after-return': else_after_return, 'return-via-temp': return_via_temp})
+
+
+class _NestAnd(ast.NodeTransformer):
+    def visit_If(self, node):
+        self.generic_visit(node)
+        if not node.orelse and isinstance(node.test, ast.BoolOp) and isinstance(node.test.op, ast.And) and len(node.test.values) >= 2:
+            first = node.test.values[0]
+            rest = node.test.values[1:]
+            inner_test = rest[0] if len(rest) == 1 else ast.BoolOp(op=ast.And(), values=rest)
+            inner = ast.copy_location(ast.If(test=inner_test, body=node.body, orelse=[]), node)
+            return ast.copy_location(ast.If(test=first, body=[inner], orelse=[]), node)
+        return node
+
+
+def nest_and(text):
+    """if A and B: X   ->   if A: if B: X      (ifs without an else side)"""
+    return ast.unparse(ast.fix_missing_locations(_NestAnd().visit(ast.parse(text))))
+
+
+TRANSFORMS.update({'nest-and': nest_and})
